@@ -265,7 +265,10 @@ func (fs *FS) Remove(name string) error {
 func (fs *FS) Rename(oldname, newname string) error {
 	oldFile, err := fs.getFile(oldname)
 	if err != nil {
-		return &hackpadfs.LinkError{Op: "rename", Old: oldname, New: newname, Err: hackpadfs.ErrNotExist}
+		return &hackpadfs.LinkError{Op: "rename", Old: oldname, New: newname, Err: err}
+	}
+	if !hackpadfs.ValidPath(newname) {
+		return &hackpadfs.LinkError{Op: "rename", Old: oldname, New: newname, Err: hackpadfs.ErrInvalid}
 	}
 	oldInfo, err := oldFile.Stat()
 	if err != nil {
